@@ -65,6 +65,18 @@ runs['evmaria-StripChecksum'] = {'func': 'mariadbBinlogEvent.StripChecksum'}
 for f in ['readLenEncInt', 'metadataRead', 'newBitmap', 'Bitmap.Count', 'Bitmap.Bit', 'Bitmap.BitCount']:
     runs['rbr-' + f] = {'func': f}
 
+PARSER_OBS = ("binlogEvent_Format,binlogEvent_Rotate,binlogEvent_Query,binlogEvent_TableMap,binlogEvent_Rows,binlogEvent_TableID,"
+              "GetStatementCategory,appendInsertEventFromRows,appendUpdateEventFromRows,appendDeleteEventFromRows,newError,Error_msgf,"
+              "Streamer_binlogPosition,StatementType_String,NewMysqlTableName")
+runs['parser'] = {'pkg': '.', 'func': 'Streamer.parseEvents', 'observer': PARSER_OBS,
+                  'ifacetag': 'replication.BinlogEvent=replication.mysql56BinlogEvent', 'min_obligations': 1500, 'wall': 900}
+PARSER_ASSUME = [
+    "events received from the reader are mysql56BinlogEvent values (the only producer, readBinlogEvent, constructs exactly those)",
+    "at the level of the dispatch loop the body parsers (Format, Rotate, Query, TableMap, Rows, TableID), GetStatementCategory, the row converters and the error constructors are pure functions of their arguments (uninterpreted); their own units verify them; panics inside body parsers on malformed bodies are outside this unit (observation O3)",
+    "abstract callees and the table mapper return non-nil pointers / interfaces when they return a nil error; the package logger is non-nil",
+    "the history-level statements (exactly-once over several attempts, labels as resume points) are the induction over attempts / events of these per-iteration and per-return obligations (paper lemma, DESIGN.md §4)",
+]
+
 GEN = "contract-based deductive verification: VCs generated from go/ssa of the real code against Go-function contracts in //go:build verif files, discharged by z3/cvc5"
 
 def cell(names, exclude=None, include=None):
@@ -127,12 +139,37 @@ props['C08'] = {
     'technique': GEN,
     'runs': cell([n for n in TYPES if n not in ('json', 'newdecimal')], include=['ensures:owner', 'frame:.*']),
 }
+props['C02'] = {
+    'level': 'proof',
+    'claim': "Loop invariant with ghost state over the real parseEvents (all event sequences, unbounded): grouping state (open transaction, number of buffered changes) matches the statement's step function; the handler is called only at commit points (XID/COMMIT, ROLLBACK with an empty transaction, or a change outside BEGIN..COMMIT), with exactly the buffered changes, at most once per event, and the buffer is empty again after an accepted delivery; ignorable events leave the grouping state untouched.",
+    'note': "Trusted: govc, solvers. Statement classification (GetStatementCategory) is abstract in this unit. " + PARSER_ASSUME[1],
+    'technique': GEN + "; inductive loop invariant with ghost variables and hook functions, callback contract at the handler call",
+    'assumptions': PARSER_ASSUME,
+    'runs': ['parser'],
+}
+props['C03'] = {
+    'level': 'proof',
+    'claim': "At the only handler call the transaction's start label equals the ghost accepted boundary (previous end label, initial position or rotation target), the end label is (current file, next-position field of the commit event as an unsigned 32-bit value); after an accepted delivery the boundary becomes that end label; a rotation sets both coordinates; nothing else moves the position. NextPosition/Rotate decode exactly (their own units).",
+    'note': "Trusted: govc, solvers. 'Starting at an end label yields exactly the remaining transactions' is the paper lemma over these obligations (the master replays rotate + format description; table maps precede rows events in their own transaction).",
+    'technique': GEN + "; loop invariant + callback contract",
+    'assumptions': PARSER_ASSUME,
+    'runs': ['parser', 'ev-NextPosition', 'ev-Rotate'],
+}
+props['C04'] = {
+    'level': 'proof',
+    'claim': "On every one of the return statements of parseEvents (cancellation, end of stream, invalid event, decode / lookup / handler failure, unsupported event, column-count mismatch) the position returned equals the ghost accepted boundary: the position after the last transaction for which the handler returned nil, or the initial / rotated position. Stream stores exactly that value for the next attempt.",
+    'note': "Trusted: govc, solvers. The multi-attempt statement is the induction over attempts of this per-attempt contract (paper lemma).",
+    'technique': GEN + "; ghost accepted-boundary variable, postcondition on every return path",
+    'assumptions': PARSER_ASSUME,
+    'runs': ['parser'],
+}
 props['C17'] = {
     'level': 'proof',
-    'claim': "IsValid() is proved equivalent, for every byte string shorter than 4 GiB, to `len >= 19 and LE32(ev[9:13]) == len`; every header accessor and classifier is proved panic-free on buffers of at least 19 bytes.",
+    'claim': "IsValid() is proved equivalent, for every byte string shorter than 4 GiB, to `len >= 19 and LE32(ev[9:13]) == len`; every header accessor and classifier is proved panic-free on accepted buffers (weakest preconditions per accessor); in parseEvents every accessor call's precondition is an obligation that only the validity test establishes, and an event failing the test ends the attempt with a non-nil error, no handler call and the position at the accepted boundary.",
     'note': "Trusted: govc, solvers. The gate-before-use typestate in parseEvents is part of the parser unit.",
     'technique': GEN,
-    'runs': [{'use': 'ev-' + m} for m in EV[:19]] + ['ev56-IsGTID', 'evmaria-IsGTID'],
+    'runs': [{'use': 'ev-' + m} for m in EV[:19]] + ['ev56-IsGTID', 'evmaria-IsGTID', 'parser'],
+    'assumptions': PARSER_ASSUME[:3],
 }
 props['C16'] = {
     'level': 'proof',
